@@ -64,7 +64,14 @@ func (c *contentReader) Read(p []byte) (int, error) {
 	return n, nil
 }
 
+var errProbe = errors.New("injected failure of a release probe")
+
+type failingReader struct{}
+
+func (failingReader) Read([]byte) (int, error) { return 0, errProbe }
+
 func worker() {
+	probes := os.Getenv("C06_PROBE") == "1"
 	dir := os.Getenv("C06_DIR")
 	seed, _ := strconv.ParseInt(os.Getenv("C06_SEED"), 10, 64)
 	G, _ := strconv.Atoi(os.Getenv("C06_G"))
@@ -88,6 +95,12 @@ func worker() {
 		mu.Lock()
 		if len(res.Violations) < 20 {
 			res.Violations = append(res.Violations, map[string]string{"kind": kind, "detail": detail})
+		}
+		if kind == "lock-not-released" {
+			// report at once: the leaked File's finalizer panics as soon as the collector finds it
+			b, _ := json.Marshal(&res)
+			os.WriteFile(os.Getenv("C06_OUT"), b, 0o666)
+			os.Exit(0)
 		}
 		mu.Unlock()
 	}
@@ -136,7 +149,66 @@ func worker() {
 					}
 				}
 			}
+			priv := filepath.Join(dir, fmt.Sprintf("priv-%d-%d", os.Getpid(), g))
 			for i := 0; i < N; i++ {
+				if probes && rng.Intn(16) == 0 {
+					// release probe: an acquisition on a path nobody else uses, ended in every way an entry
+					// point can end (function / content reader failing included); once the call has
+					// returned, a non-blocking exclusive flock on a fresh descriptor must be granted
+					kind := []string{"Write", "Write whose content reader fails", "Transform", "Transform whose function fails", "Create+Close", "Edit+Close", "Open+Close", "Mutex.Lock+unlock"}[rng.Intn(8)]
+					var err error
+					wantErr := false
+					switch kind {
+					case "Write":
+						err = lockedfile.Write(priv, strings.NewReader("probe"), 0o666)
+					case "Write whose content reader fails":
+						wantErr = true
+						err = lockedfile.Write(priv, io.MultiReader(strings.NewReader("pro"), failingReader{}), 0o666)
+					case "Transform":
+						err = lockedfile.Transform(priv, func(old []byte) ([]byte, error) { return append(old[:len(old):len(old)], 'x'), nil })
+					case "Transform whose function fails":
+						wantErr = true
+						err = lockedfile.Transform(priv, func(old []byte) ([]byte, error) { return nil, errProbe })
+					case "Create+Close", "Edit+Close", "Open+Close":
+						var f *lockedfile.File
+						switch kind {
+						case "Create+Close":
+							f, err = lockedfile.Create(priv)
+						case "Edit+Close":
+							f, err = lockedfile.Edit(priv)
+						default:
+							if f, err = lockedfile.Open(priv); errors.Is(err, fs.ErrNotExist) {
+								f, err = lockedfile.Create(priv)
+							}
+						}
+						if err == nil {
+							dwell()
+							err = f.Close()
+						}
+					default:
+						var unlock func()
+						if unlock, err = lockedfile.MutexAt(priv).Lock(); err == nil {
+							dwell()
+							unlock()
+						}
+					}
+					if wantErr != (err != nil) || (wantErr && !errors.Is(err, errProbe)) {
+						viol("release-probe-error", fmt.Sprintf("%s on a private path returned %v", kind, err))
+						continue
+					}
+					if pf, perr := os.OpenFile(priv, os.O_RDWR, 0); perr == nil {
+						if ferr := syscall.Flock(int(pf.Fd()), syscall.LOCK_EX|syscall.LOCK_NB); ferr == syscall.EWOULDBLOCK {
+							viol("lock-not-released", fmt.Sprintf("pid %d: %s on %s (a path no other client uses) has returned, but the file is still locked: a non-blocking exclusive flock on a fresh descriptor is refused", os.Getpid(), kind, filepath.Base(priv)))
+						} else if ferr == nil {
+							syscall.Flock(int(pf.Fd()), syscall.LOCK_UN)
+						}
+						pf.Close()
+						mu.Lock()
+						res.Acq["(release probe) "+kind]++
+						mu.Unlock()
+					}
+					continue
+				}
 				pi := rng.Intn(NP)
 				path := filepath.Join(dir, fmt.Sprintf("lock%d", pi))
 				api := apis[rng.Intn(len(apis))]
@@ -280,7 +352,7 @@ func main() {
 		return
 	}
 	vlib.Main("C06", "exploration", 10*time.Minute, func(r *vlib.Run) {
-		r.Rule("rounds of P processes x G goroutines released together, each doing N acquisitions on 2-3 lock paths (regular files; every other round also one private character device or FIFO, whose truncation by Create/Write fails and is tolerated) through a random entry point (OpenFile O_RDONLY/O_WRONLY/O_RDWR, Open, Create, Edit, Mutex.Lock, inside Transform's function, inside the reader handed to Write), dwelling 0-300us inside, with seeded delays at the lockedfile.open/close hooks; every second worker process closes its standard input first, so that lock files are opened on descriptor 0; one round in six runs its workers as uid 65534 on lock files they can read but not write (write-locking entry points must be refused, not weakened); every third round the workers run under strace, which makes every other flock call of every thread fail with EINTR (an interrupted lock request must be reissued, never taken for granted) or, in every other such round, every third one with ENOSYS (a refused lock request must surface as an error, never as an unlocked file). Evaluations = acquisitions; distinct non-trivial = acquisitions that found a conflicting holder inside when they were invoked (had to wait), plus rounds.")
+		r.Rule("rounds of P processes x G goroutines released together, each doing N acquisitions on 2-3 lock paths (regular files; every other round also one private character device or FIFO, whose truncation by Create/Write fails and is tolerated) through a random entry point (OpenFile O_RDONLY/O_WRONLY/O_RDWR, Open, Create, Edit, Mutex.Lock, inside Transform's function, inside the reader handed to Write), dwelling 0-300us inside, with seeded delays at the lockedfile.open/close hooks; every second worker process closes its standard input first, so that lock files are opened on descriptor 0; one round in six runs its workers as uid 65534 on lock files they can read but not write (write-locking entry points must be refused, not weakened); every third round the workers run under strace, which makes every other flock call of every thread fail with EINTR (an interrupted lock request must be reissued, never taken for granted) or, in every other such round, every third one with ENOSYS (a refused lock request must surface as an error, never as an unlocked file); in the other rounds one operation in 16 is a release probe: an acquisition on a path private to the goroutine, ended in each way an entry point can end (Write / Write whose content reader fails / Transform / Transform whose function fails / Create, Edit, Open + Close / Mutex.Lock + unlock), after whose return a non-blocking exclusive flock on a fresh descriptor must be granted. Evaluations = acquisitions; distinct non-trivial = acquisitions that found a conflicting holder inside when they were invoked (had to wait), plus rounds.")
 		r.Assume("flock semantics of the host kernel; the occupancy word is updated only between an acquiring call's return and the releasing call's invocation")
 		base := vlib.Scratch()
 		rounds := r.Pick(6, 28)
@@ -392,7 +464,7 @@ func main() {
 				}
 				cmd.Env = append(os.Environ(), "C06_WORKER=1", "C06_DIR="+dir, "C06_OUT="+out,
 					fmt.Sprintf("C06_SEED=%d", r.SubSeed(fmt.Sprintf("w-%d-%d", round, p))%1_000_000),
-					fmt.Sprintf("C06_G=%d", G), fmt.Sprintf("C06_N=%d", N), fmt.Sprintf("C06_PATHS=%d", NP), fmt.Sprintf("C06_CLOSE_STDIN=%d", p%2), fmt.Sprintf("C06_NOSYS=%d", map[bool]int{true: 1}[nosysRound]), fmt.Sprintf("C06_UNPRIV=%d", map[bool]int{true: 1}[unprivRound]), fmt.Sprintf("C06_NONREG=%d", nonreg), "C06_NONREG_KIND="+nonregKind, vlib.RaceEnv(racePrefix))
+					fmt.Sprintf("C06_G=%d", G), fmt.Sprintf("C06_N=%d", N), fmt.Sprintf("C06_PATHS=%d", NP), fmt.Sprintf("C06_CLOSE_STDIN=%d", p%2), fmt.Sprintf("C06_NOSYS=%d", map[bool]int{true: 1}[nosysRound]), fmt.Sprintf("C06_UNPRIV=%d", map[bool]int{true: 1}[unprivRound]), fmt.Sprintf("C06_NONREG=%d", nonreg), "C06_NONREG_KIND="+nonregKind, fmt.Sprintf("C06_PROBE=%d", map[bool]int{true: 1}[!eintrRound && !unprivRound]), vlib.RaceEnv(racePrefix))
 				cmd.Stderr = os.Stderr
 				if err := cmd.Start(); err != nil {
 					r.Inconclusive(err.Error())
